@@ -46,15 +46,25 @@ func nextSource() (string, int) {
 
 // recorded is what the connection's events say.
 type recorded struct {
-	events  int
-	digests []string // value of https.ja3-digest of every event that carries the field
-	names   []string // value of https.server-name of every event that carries the field
-	types   []string
+	events   int
+	digests  []string // value of https.ja3-digest of every event that carries the field
+	names    []string // value of https.server-name of every event that carries the field
+	types    []string
+	answered bool   // the server answered the hello with handshake records (it serves the hello) - labels only
+	leave    string // how the client left - for messages
 }
 
-// exchange sends the chunks, half-closes, waits for the server to finish with the
-// connection and returns what was recorded for it.
-func exchange(chunks [][]byte) (*recorded, error) {
+// How long a connection's events are looked for once the server has closed the connection
+// and none (or none with the fields) has been seen. Not a timing verdict: the https service
+// hands its events to the channel synchronously (service -> bus -> token channel -> capture,
+// no goroutine, no queue) before Handle returns, and the server closes the connection only
+// after Handle has returned, so an event the service sent is in the capture before
+// WaitClosed can observe the close. The grace only guards that argument.
+const missingGrace = 5 * time.Second
+
+// exchange sends the hello (in its TCP chunks), leaves the handshake the way c.Leave says,
+// waits for the server to finish with the connection and returns what was recorded for it.
+func exchange(c helloCase) (*recorded, error) {
 	s, cp, err := server()
 	if err != nil {
 		return nil, fmt.Errorf("infra: %v", err)
@@ -62,29 +72,62 @@ func exchange(chunks [][]byte) (*recorded, error) {
 	base := cp.Len()
 	ip, port := nextSource()
 	conn := s.L.DialTCP(&net.TCPAddr{IP: net.IPv4(10, 0, 0, 1), Port: 443}, &net.TCPAddr{IP: net.ParseIP(ip), Port: port})
-	for _, ch := range chunks {
+	for _, ch := range c.chunks() {
 		conn.Send(ch)
 	}
-	conn.CloseWrite()
-	if !conn.WaitClosed(120 * time.Second) {
-		return nil, fmt.Errorf("infra: server did not finish the connection within 120s of the client's EOF")
+	if c.Leave.late() {
+		// the server has read the whole hello and either answered it and reads on, or closed.
+		// Serving the first hello of a server name includes generating an RSA-4096 key.
+		if conn.WaitIdle(240*time.Second) == lab.Busy {
+			return nil, fmt.Errorf("infra: server neither answered the hello and read on nor closed within 240s")
+		}
 	}
-	return collect(cp, base, ip, port, 1), nil
+	if c.Leave.mode() == "reset" {
+		conn.Reset()
+	} else {
+		for _, b := range c.leaveBytes() {
+			conn.Send(b)
+		}
+		conn.CloseWrite()
+	}
+	if !conn.WaitClosed(240 * time.Second) {
+		return nil, fmt.Errorf("infra: server did not finish the connection within 240s of the client leaving (%s)", c.Leave.mode())
+	}
+	rec := collect(cp, base, ip, port, 1, true)
+	out := conn.Output()
+	rec.answered = len(out) > 0 && out[0] == 22
+	rec.leave = c.Leave.mode()
+	if c.Leave.late() {
+		rec.leave += " after the server's flight"
+	} else {
+		rec.leave += " right behind the hello"
+	}
+	return rec, nil
 }
 
-func collect(cp *lab.Capture, base int, ip string, port int, want int) *recorded {
-	// the service sends its events before it returns, delivery to the channel is
-	// asynchronous: wait for them. Only events delivered after the case began are
-	// looked at (source addresses are unique per connection anyway).
+func collect(cp *lab.Capture, base int, ip string, port int, want int, fields bool) *recorded {
+	// Only events delivered after the case began are looked at (source addresses are
+	// unique per connection anyway). See missingGrace for why the wait is not a verdict.
 	var mine []lab.Ev
 	snap := func(evs []lab.Ev) bool {
 		mine = nil
 		if base <= len(evs) {
 			mine = lab.From(evs[base:], ip, port)
 		}
-		return len(mine) >= want
+		if len(mine) < want {
+			return false
+		}
+		if fields {
+			for _, e := range mine {
+				if e.Has("https.ja3-digest") {
+					return true
+				}
+			}
+			return false
+		}
+		return true
 	}
-	cp.WaitFor(20*time.Second, snap)
+	cp.WaitFor(missingGrace, snap)
 	cp.WaitFor(0, snap)
 	rec := &recorded{}
 	for _, e := range mine {
@@ -100,8 +143,11 @@ func collect(cp *lab.Capture, base int, ip string, port int, want int) *recorded
 	return rec
 }
 
-// compare applies the statement to one connection: every recorded digest is the
-// reference digest, every recorded server name is the SNI sent.
+// compare applies the statement to one connection whose complete, well-formed hello was
+// delivered and which the server has finished with: the hello's JA3 digest is recorded with
+// the connection's events - at least one event carries it, whether or not the handshake
+// completed - every recorded digest is the reference digest, and the recorded server name
+// is the SNI sent.
 func compare(what string, ref *refHello, rec *recorded) error {
 	want := ref.ja3Digest()
 	for _, d := range rec.digests {
@@ -116,12 +162,23 @@ func compare(what string, ref *refHello, rec *recorded) error {
 			}
 		}
 	}
+	how := ""
+	if rec.leave != "" {
+		how = fmt.Sprintf(" (client left: %s; server answered the hello with a handshake flight: %v)", rec.leave, rec.answered)
+	}
+	if len(rec.digests) == 0 {
+		return fmt.Errorf("%s: the complete hello was delivered and the server has closed the connection, but no event of the connection carries https.ja3-digest (events of the connection: %v): the JA3 %q (%s) of this hello was not recorded%s", what, rec.types, ref.ja3String(), want, how)
+	}
+	if ref.HasSNI && len(rec.names) == 0 {
+		return fmt.Errorf("%s: no event of the connection carries https.server-name although the hello sent SNI %q (events %v)%s", what, ref.SNI, rec.types, how)
+	}
 	return nil
 }
 
 type outcome struct {
 	compared int // digests compared
 	events   int
+	answered int // connections (of the two) whose hello the server answered with a handshake flight
 }
 
 func checkHello(c helloCase) (outcome, error) {
@@ -143,8 +200,8 @@ func checkHello(c helloCase) (outcome, error) {
 	var errA, errB error
 	var wg sync.WaitGroup
 	wg.Add(2)
-	go func() { defer wg.Done(); recA, errA = exchange(a.chunks()) }()
-	go func() { defer wg.Done(); recB, errB = exchange(b.chunks()) }()
+	go func() { defer wg.Done(); recA, errA = exchange(a) }()
+	go func() { defer wg.Done(); recB, errB = exchange(b) }()
 	wg.Wait()
 	if errA != nil {
 		return o, errA
@@ -154,6 +211,11 @@ func checkHello(c helloCase) (outcome, error) {
 	}
 	o.events = recA.events + recB.events
 	o.compared = len(recA.digests) + len(recB.digests)
+	for _, rec := range []*recorded{recA, recB} {
+		if rec.answered {
+			o.answered++
+		}
+	}
 	if err := compare("hello", refA, recA); err != nil {
 		return o, err
 	}
@@ -197,7 +259,7 @@ func label(c helloCase, ref *refHello) string {
 	return fmt.Sprintf("hello/v=%04x/%s/%s/records=%s", c.Ver, g, sni, rec)
 }
 
-const ruleText = "structural ClientHello generator (legacy version SSL3..TLS1.2, 1..40 cipher suites from known/GREASE/SCSV/near-GREASE/random values, 0..20 extensions: SNI from a 4-name alphabet incl. a mixed-case name, supported_groups with GREASE, ec_point_formats with 0..3 formats, well-formed known types, unknown types with empty/random bodies, GREASE types, duplicated types other than server_name/supported_groups/ec_point_formats, random order) x record-layer fragmentation (1..n records, cuts inside the handshake header) x TCP segmentation, sent to the https service through the real server, then EOF; each case also sends the same hello with re-drawn GREASE values; oracle = independent JA3 of the raw bytes sent == https.ja3-digest of every event of the connection, https.server-name == SNI sent, both hellos recorded with the same digest; non-trivial = hello has >=1 GREASE value or >=1 unknown or duplicated extension"
+const ruleText = "structural ClientHello generator (legacy version SSL3..TLS1.2, 1..40 cipher suites from known/GREASE/SCSV/near-GREASE/random values, 0..20 extensions: SNI from a 4-name alphabet incl. a mixed-case name, supported_groups with GREASE, ec_point_formats with 0..3 formats, well-formed known types, unknown types with empty/random bodies, GREASE types, duplicated types other than server_name/supported_groups/ec_point_formats, random order) x record-layer fragmentation (1..n records, cuts inside the handshake header) x TCP segmentation, sent to the https service through the real server x the point at which the client abandons the handshake (FIN, close_notify, another warning alert, a fatal alert, a record cut short at a boundary-biased offset, a bogus key-exchange flight - each queued right behind the hello or sent after the server's flight / refusal - or a reset after the server's flight); each case also sends the same hello with re-drawn GREASE values; oracle = once the server has closed the connection at least one event of the connection carries https.ja3-digest (and https.server-name when SNI was sent), independent JA3 of the raw bytes sent == https.ja3-digest of every event of the connection, https.server-name == SNI sent, both hellos recorded with the same digest; non-trivial = hello has >=1 GREASE value or >=1 unknown or duplicated extension"
 
 func runHello(t *testing.T, name string, checks, maxCiphers, maxExts int) {
 	r := vlib.Open(prop)
@@ -241,12 +303,23 @@ func runHello(t *testing.T, name string, checks, maxCiphers, maxExts int) {
 		if o.compared > 0 {
 			r.Label(fmt.Sprintf("outcome/digest-compared/v=%04x", c.Ver), int64(o.compared))
 		}
-		if o.events == 0 {
-			r.Label("outcome/no-event", 1)
-		} else if o.compared == 0 {
-			r.Label("outcome/events-without-digest-field", 1)
-		}
+		labelLeave(r, c, o)
 	})
+}
+
+// labelLeave counts the connections per abandonment point, apart for hellos the server
+// answered with its handshake flight (it serves them) and hellos it refused.
+func labelLeave(r *vlib.Run, c helloCase, o outcome) {
+	when := "early"
+	if c.Leave.late() {
+		when = "late"
+	}
+	if o.answered > 0 {
+		r.Label("leave/answered/"+c.Leave.mode()+"/"+when, int64(o.answered))
+	}
+	if o.answered < 2 {
+		r.Label("leave/refused/"+c.Leave.mode()+"/"+when, int64(2-o.answered))
+	}
 }
 
 func TestHello(t *testing.T) {
@@ -380,6 +453,124 @@ func TestPinned(t *testing.T) {
 		}
 		if o.compared > 0 {
 			r.Label(fmt.Sprintf("outcome/digest-compared/v=%04x", c.Ver), int64(o.compared))
+		}
+	}
+}
+
+// ---------------------------------------------------------------- abandonment points, enumerated
+
+// leaveHellos are hellos the service serves (TLS 1.0..1.2, null compression, suites the
+// stack has, RSA and ECDHE key exchange) plus one it refuses, with few server names (each
+// new name costs the service an RSA-4096 key).
+func leaveHellos() map[string]helloCase {
+	m := map[string]helloCase{}
+	for _, ver := range []uint16{0x0301, 0x0302, 0x0303} {
+		c := helloCase{RecVer: 0x0301, Ver: ver, Random: strings.Repeat("5c", 32), Compression: []int{0},
+			Ciphers: []uint16{0x7a7a, 0xc02f, 0xc013, 0x002f, 0x0035},
+			Exts: []ext{{Type: 0x1a1a, Body: "", Kind: "grease"}, {Type: 0, Body: vlib.Hex(sniBody("a.test")), Kind: "sni"},
+				{Type: 23, Body: "", Kind: "unknown"},
+				{Type: 10, Body: vlib.Hex(groupsBody([]uint16{0x4a4a, 29, 23})), Kind: "groups"}, {Type: 11, Body: vlib.Hex(pointsBody([]uint8{0})), Kind: "points"}},
+			Regrease: []int{3, 9, 12}}
+		m[fmt.Sprintf("ecdhe-sni/v=%04x", ver)] = c
+		d := helloCase{RecVer: ver, Ver: ver, Random: strings.Repeat("c5", 32), Compression: []int{0},
+			Ciphers:  []uint16{0x002f, 0x0a0a, 0x0035, 0x000a},
+			Exts:     []ext{{Type: 0xff01, Body: "00", Kind: "known"}, {Type: 0xbaba, Body: "00", Kind: "grease"}},
+			Regrease: []int{6, 2}}
+		m[fmt.Sprintf("rsa-nosni/v=%04x", ver)] = d
+	}
+	c := m["ecdhe-sni/v=0303"]
+	c.Ver = 0x0300
+	m["refused-sni/v=0300"] = c
+	return m
+}
+
+type leaveCase struct {
+	Name  string    `json:"name"`
+	Hello helloCase `json:"hello"`
+}
+
+// TestLeave enumerates hello x abandonment point x {right behind the hello, after the
+// server's flight} x every alert description / cut offset class, so that the dimension is
+// covered whatever the sampled tests draw.
+func TestLeave(t *testing.T) {
+	const name = "TestLeave"
+	r := vlib.Open(prop)
+	r.Rule("enumerated: 6 hellos the service serves (TLS1.0..1.2 x {ECDHE with SNI, RSA without}; GREASE cipher/extension/group, unknown extension) + 1 it refuses x abandonment point {FIN, close_notify, warning alert (each description), fatal alert (each description), record cut after {1,4,5,6,9,74} of 75 bytes, bogus key-exchange flight {0,66,258 bytes}, reset} x {right behind the hello, after the server's flight} x {records carry the hello's legacy version, its record version}; same oracle as the sampled hellos (non-trivial: all)")
+	var rc leaveCase
+	if vlib.ReplayCase(name, &rc) {
+		if _, err := checkHello(rc.Hello); err != nil {
+			if strings.HasPrefix(err.Error(), "infra:") {
+				t.Fatalf("%v", err)
+			}
+			r.Violation(t, name, rc, err.Error())
+		}
+		return
+	}
+	if vlib.Replaying() {
+		return
+	}
+	var leaves []leaveT
+	for _, late := range []bool{false, true} {
+		leaves = append(leaves, leaveT{Mode: "fin", Late: late})
+		if late {
+			leaves = append(leaves, leaveT{Mode: "reset", Late: true})
+		}
+		for _, rv := range []bool{false, true} {
+			leaves = append(leaves, leaveT{Mode: "close-notify", Late: late, RecVerRecords: rv})
+			for i := range warningAlerts {
+				leaves = append(leaves, leaveT{Mode: "warning-alert", Late: late, Arg: i, RecVerRecords: rv})
+			}
+			for i := range fatalAlerts {
+				leaves = append(leaves, leaveT{Mode: "fatal-alert", Late: late, Arg: i, RecVerRecords: rv})
+			}
+			for _, k := range []int{1, 4, 5, 6, 9, cutRecordLen - 1} {
+				leaves = append(leaves, leaveT{Mode: "mid-record", Late: late, Arg: k - 1, RecVerRecords: rv})
+			}
+			for _, n := range []int{0, 66, 258} {
+				leaves = append(leaves, leaveT{Mode: "wrong-flight", Late: late, Arg: n, RecVerRecords: rv})
+			}
+		}
+	}
+	hellos := leaveHellos()
+	var names []string
+	for n := range hellos {
+		names = append(names, n)
+	}
+	sort.Strings(names)
+	shard, shards := r.Shard()
+	if shards < 1 {
+		shards = 1
+	}
+	i, violations := 0, 0
+	for _, hn := range names {
+		for _, lv := range leaves {
+			i++
+			if i%shards != shard%shards {
+				continue
+			}
+			c := hellos[hn]
+			c.Leave = lv
+			when := "early"
+			if lv.late() {
+				when = "late"
+			}
+			cn := fmt.Sprintf("%s/%s/%s/arg=%d/recver=%v", hn, lv.mode(), when, lv.Arg, lv.RecVerRecords)
+			r.Case("enum-leave/"+lv.mode()+"/"+when, "enum-leave/"+cn, func() interface{} { return leaveCase{cn, c} })
+			o, err := checkHello(c)
+			if err != nil {
+				if strings.HasPrefix(err.Error(), "infra:") {
+					t.Fatalf("%v", err)
+				}
+				r.Violation(t, name, leaveCase{cn, c}, err.Error())
+				if violations++; violations >= 3 {
+					return // enough to report; every further one costs the grace period
+				}
+				continue
+			}
+			if o.compared > 0 {
+				r.Label(fmt.Sprintf("outcome/digest-compared/v=%04x", c.Ver), int64(o.compared))
+			}
+			labelLeave(r, c, o)
 		}
 	}
 }
